@@ -53,7 +53,7 @@ def c05_relations(docs, rng=None):
     for ks in prefixes:
         rels.append({"name": "wrap", "keys": ks, "path": [], "docs": [wrap_sd(ks, d) for d in docs]})
     cands = []
-    for j in range(len(docs)):
+    for j in range(len(docs) if not any(_uses_remove_idiom(d) for d in docs) else 0):
         qs = [[], [A]] if rng is None else [[]] + [[k] for k, c in docs[j]["ch"] if c["k"] == "dict" and k["t"] == "s"]
         for q in qs:
             if _can_add_at(docs[j], q):
@@ -93,6 +93,10 @@ def _mod_sibling(rel, base, q):
     else:
         r2 = {"d": [[k, (c if k == qk else v)] for k, v in rel["d"]]}
     return _unordered(r2) == _unordered(base)
+
+
+def _uses_remove_idiom(sd):
+    return (sd["del"] == "T" and sd["k"] == "scalar") or any(_uses_remove_idiom(c) for _, c in sd["ch"])
 
 
 def c05_check(rel, base, got):
